@@ -2,7 +2,10 @@
 
 package simrt
 
-import "runtime"
+import (
+	"runtime"
+	"unsafe"
+)
 
 // RaceEnabled reports whether the binary was built with -race.
 const RaceEnabled = true
@@ -12,3 +15,6 @@ func raceEnable()  { runtime.RaceEnable() }
 
 // RaceErrors is the number of data races the Go race runtime has reported so far.
 func RaceErrors() int { return runtime.RaceErrors() }
+
+func raceAcquire(p unsafe.Pointer) { runtime.RaceAcquire(p) }
+func raceRelease(p unsafe.Pointer) { runtime.RaceRelease(p) }
